@@ -1196,12 +1196,13 @@ Proof. vm_compute. split; reflexivity. Qed.
 
 (* the argument string  "(") + (")"  and oracles that answer as CPython's ast does on it *)
 Definition binop_args : string := """("") + ("")""".
-Definition binop_oracle : pyparse := mkPyparse (fun _ => true) (fun _ => Some (0, [])).
+Definition binop_oracle : pyparse := mkPyparse (fun _ => true) (fun _ => Some (0, [])) (fun _ => 0).
 Definition binop_is_call (a : string) : bool := negb (String.eqb a binop_args).
 
 (* a small story and an oracle for its two call sites *)
 Definition sample_oracle : pyparse :=
-  mkPyparse (fun _ => true) (fun a => if String.eqb a "1" then Some (1, []) else Some (0, [])).
+  mkPyparse (fun _ => true) (fun a => if String.eqb a "1" then Some (1, []) else Some (0, []))
+            (fun _ => 0).
 
 Definition sample_lines : list string :=
   ["import random"; "@start Hall"; ":: Start"; "Hello {name} // greeting"; "~ x = 1";
